@@ -16,6 +16,126 @@ import RuschmProofs.LibLemmas
 namespace Ruschm.C13
 open Ruschm Ruschm.Interp
 
+/-! ## what a library exposes -/
+
+/-- When a library definition evaluates to the export list `defs`: the names of `defs` are exactly
+the external names of the export specs (each once); the value under an external name is what the
+library's own frame `ρlib` — the frame allocated for this library, number `st.store.frames.size`
+— binds to the INTERNAL name of the (last) export spec with that external name; and every
+exported internal name is bound there. Nothing else of the library frame is in `defs`. -/
+theorem exports_exact {fuel : Nat} {st st' : State} {decls : List LibDecl} {defs : S.Bindings}
+    (h : evalLibraryDef fuel st decls = (.ok defs, st')) :
+    (∀ x, x ∈ defs.map Prod.fst ↔ ∃ sp ∈ S.exportSpecs decls, sp.external = x) ∧
+    (defs.map Prod.fst).Nodup ∧
+    (∀ x, defs.lookup x =
+      (S.exportFor (S.exportSpecs decls) x).bind
+        (fun sp => st'.store.lookup st.store.frames.size sp.internal)) ∧
+    (∀ sp ∈ S.exportSpecs decls, (st'.store.lookup st.store.frames.size sp.internal).isSome) := by
+  cases fuel with
+  | zero => rw [evalLibraryDef] at h; cases h
+  | succ fuel =>
+    rw [evalLibraryDef_succ_eq] at h
+    split at h
+    · cases h
+    · rename_i exports st2 hdecls
+      have hex := evalLibDecls_exports _ _ _ _ _ _ _ hdecls
+      simp only [List.nil_append] at hex
+      subst hex
+      have hst : st2 = st' := congrArg Prod.snd h
+      subst hst
+      have hfold : List.foldlM (exportStep (st2.store.lookup st.store.frames.size)) []
+          (S.exportSpecs decls) = .ok defs := congrArg Prod.fst h
+      obtain ⟨h1, h2, h3⟩ := exportFold_spec _ _ _ _ hfold
+      have hlook : ∀ x, defs.lookup x = (S.exportFor (S.exportSpecs decls) x).bind
+          (fun sp => st2.store.lookup st.store.frames.size sp.internal) := by
+        intro x; rw [h1 x]; cases S.exportFor (S.exportSpecs decls) x <;> simp
+      refine ⟨fun x => ?_, h3 (by simp), hlook, h2⟩
+      rw [← lookup_isSome_iff, hlook x]
+      constructor
+      · intro hs
+        cases hf : S.exportFor (S.exportSpecs decls) x with
+        | none => simp [hf] at hs
+        | some sp =>
+          have := List.find?_some hf
+          exact ⟨sp, List.mem_reverse.1 (List.mem_of_find?_eq_some hf), by simpa using this⟩
+      · rintro ⟨sp, hsp, rfl⟩
+        cases hf : S.exportFor (S.exportSpecs decls) sp.external with
+        | none =>
+          have := List.find?_eq_none.1 hf sp (List.mem_reverse.2 hsp)
+          simp at this
+        | some sp' =>
+          exact h2 sp' (List.mem_reverse.1 (List.mem_of_find?_eq_some hf))
+
+/-- a library with a hidden helper: `(define-library .. (export (rename inc up)) (begin (define hidden 1) (define inc 2)))` -/
+def demoDecls : List LibDecl :=
+  [.export [.rename "inc" "up" none],
+   .begin_ [.definition (.mk "hidden" (.prim (.int 1) none) none),
+            .definition (.mk "inc" (.prim (.int 2) none) none)]]
+
+example : (evalLibraryDef 6 {} demoDecls).1 = .ok [("up", .num (.int 2))] := by
+  simp [evalLibraryDef, demoDecls, evalLibDecls, evalStatements, evalExprOrDef, Eval.evalExpr,
+    Eval.evalPrim, Store.newFrame, Store.define, Store.defsInsert, Store.lookup, Store.lookupAux,
+    assocInsert, List.lookup]
+
+/-- The library's frame `ρlib = st.store.frames.size` is newly allocated (no frame had that
+number before), the declarations are evaluated in it, and — whatever the outcome — it is a root:
+it has no parent, so its chain is `[ρlib]` (the library sees NO definition of any other frame,
+the importer's in particular), and it lies on the chain of no frame that existed before (lookups
+from the importer's frames never reach a library-internal name). -/
+theorem lib_env_is_fresh_root (fuel : Nat) (st : State) (decls : List LibDecl) :
+    let ρlib := st.store.frames.size
+    let res := evalLibraryDef (fuel + 1) st decls
+    (∃ r, evalLibDecls fuel { st with store := (st.store.newFrame none).2 } ρlib decls [] = (r, res.2)) ∧
+    st.store.frames[ρlib]? = none ∧
+    res.2.store.parentOf ρlib = none ∧ ρlib < res.2.store.frames.size ∧
+    res.2.store.chain ρlib = [ρlib] ∧
+    (∀ ρ', ρ' < ρlib → ρlib ∉ res.2.store.chain ρ') := by
+  intro ρlib res
+  have hdecls : ∃ r, evalLibDecls fuel { st with store := (st.store.newFrame none).2 } ρlib decls [] = (r, res.2) := by
+    simp only [res, evalLibraryDef_succ_eq]
+    generalize evalLibDecls fuel _ _ decls [] = out
+    obtain ⟨r, st2⟩ := out
+    cases r <;> exact ⟨_, rfl⟩
+  obtain ⟨r, hr⟩ := hdecls
+  have inv := (invAt storeRel_grows fuel).libDecls hr
+  have hnew : (st.store.newFrame none).2.frames[ρlib]? = some { parent := none, defs := [] } := by
+    simp [Store.newFrame, ρlib]
+  obtain ⟨f', hf', hpar, -⟩ := inv.store.frame ρlib _ hnew
+  have hlt : ρlib < res.2.store.frames.size := Store.getElem?_some_lt hf'
+  refine ⟨⟨r, hr⟩, by simp [ρlib], ?_, hlt, ?_, ?_⟩
+  · simp [Store.parentOf, hf', hpar]
+  · simp [Store.chain, Store.chainAux, hf', hpar]
+  · intro ρ' hρ' hmem
+    have := (Store.mem_chainAux hmem).1
+    omega
+
+example : (evalLibraryDef 6 {} demoDecls).2.store.chain 0 = [0] :=
+  (lib_env_is_fresh_root 5 {} demoDecls).2.2.2.2.1
+
+/-- `define` or `set!` executed in a frame `ρimp` whose chain is disjoint from the chain of `ρ'`
+(`ρ'` a frame of the library: the library frame itself, or a frame of one of its closures) leaves
+every lookup from `ρ'` unchanged: the library's procedures keep seeing their own bindings. -/
+theorem importer_redefinition_harmless (σ : Store) (ρimp ρ' : Nat) (k : String) (v : Value)
+    (hdisj : ∀ i ∈ σ.chain ρ', i ∉ σ.chain ρimp) (x : String) :
+    (σ.define ρimp k v).lookup ρ' x = σ.lookup ρ' x ∧
+    (σ.set ρimp k v).2.lookup ρ' x = σ.lookup ρ' x := by
+  constructor
+  · by_cases hlt : ρimp < σ.frames.size
+    · exact Lib.lookup_define_off_chain σ k v x (fun hm => hdisj _ hm (Lib.self_mem_chain hlt))
+    · rw [Store.define_of_not_lt σ k v hlt]
+  · rw [Store.set_eq]
+    cases hr : σ.resolve ρimp k with
+    | none => rfl
+    | some r =>
+      exact Lib.lookup_define_off_chain σ k v x (fun hm => hdisj _ hm (Lib.resolve_mem_chain hr))
+
+/-- importer frame 0 and library frame 1, both roots, both defining `f`: redefining `f` in the
+importer does not change what the library sees -/
+example : ((⟨#[⟨none, [("f", .num (.int 1))]⟩, ⟨none, [("f", .num (.int 2))]⟩], #[], [], [], 0, 0⟩ : Store).set 0 "f"
+    (.num (.int 9))).2.lookup 1 "f" =
+    (⟨#[⟨none, [("f", .num (.int 1))]⟩, ⟨none, [("f", .num (.int 2))]⟩], #[], [], [], 0, 0⟩ : Store).lookup 1 "f" :=
+  (importer_redefinition_harmless _ 0 1 "f" _ (by decide) "f").2
+
 /-! ## one instance per interpreter -/
 
 /-- Once `getLibrary` has returned the export list `defs` for `name`, the instance cache maps
